@@ -316,6 +316,7 @@ def term_shapes():
         ("Not", ("Equals", ("Array", ("type", US), ("lit", 0, INT)), ("Array", ("type", US), ("lit", 1, INT)))),
         ("BVULT", u, v), ("Equals", ("BVAdd", u, v), ("BVNot", u)), ("BVSLE", ("BVConcat", u, v), ("BVZExt", u, 4)),
         ("Equals", ("BVExtract", u, 1, 2), ("BVExtract", v, 0, 1)), ("Equals", ("BVToNatural", u), x),
+        ("LT", ("BVToNatural", u), ("BVToNatural", v)), ("Equals", ("StrLength", st), ("StrLength", ("StrConcat", st, st))),
         ("LT", ("ToReal", x), r), ("Equals", ("Div", r, s_), r), ("LE", ("Pow", r, ("lit", 2, REAL)), s_),
         ("LE", ("Pow", r, ("lit", -1, REAL)), s_), ("LE", ("Pow", r, ("lit", Fraction(1, 2), REAL)), s_),
         ("LE", ("Pow", ("Plus", r, s_), ("lit", 3, REAL)), s_), ("LE", ("Pow", r, ("lit", -2, REAL)), ("Pow", s_, ("lit", 1, REAL))),
